@@ -31,6 +31,9 @@ import Pandora.Proofs.C12Fine
 import Pandora.Proofs.C12Shape
 import Pandora.Bridge.C12Startup
 import Pandora.Bridge.Waiter
+import Pandora.Bridge.C12Left
+import Pandora.Bridge.C12Wait
+import Pandora.Proofs.C12Wait
 
 namespace Pandora.Props.C12
 open Pandora.Model.C04 Pandora.Model.C12 Pandora.Proofs.C04 Pandora.Proofs.C12 Pandora.Go.C12
@@ -656,5 +659,158 @@ example : Gen.Startup.allFinished { startFinished := true, started := 3, awaited
 /-- instance_step 10 → 100 step 10 of docs/eng/startup.md: 10 at once, 9 more steps -/
 example : stepCount 10 100 10 = 9 := by decide
 example : (instanceStepToks 2 5 3 500).length = 5 ∧ instanceStepToks 2 5 3 500 = [0, 0, 500, 500, 500] := by decide
+
+/-! ### round 4 — "the RPS profile is exhausted" is real for composite profiles (`Left()` of core/schedule/composite.go)
+
+The loop of `instance.Run` and the finish callback of the shared RPS schedule learn "exhausted" from `Left() == 0`.  For a
+composite profile that answer is computed from `leftAfter`, which `NewComposite` precomputes with a loop; both are
+REGENERATED (`Pandora.Gen.C12Left`).  `cs` = what the parts answered to `Left()` when the composite was built (negative =
+unknown length, an `unlimited` part); the composite stands at part `i` (it has shifted `i` times), which now answers `cur`. -/
+
+section Left
+open Pandora.Go.C12Left Pandora.Model.C12Left Pandora.Proofs.C12Left Pandora.Bridge.C12Left
+
+/-- `leftAfter` as the regenerated loop of `NewComposite` computes it -/
+def genLeftAfter (cs : List Int) : List Int := (genLoop cs).1
+
+/-- The regenerated loop of `NewComposite` computes, for EVERY list of parts and every position, the meaning of the parts
+behind that position: unknown (−1) as soon as one of them has unknown length, else the exact sum of their tokens. -/
+theorem C12_composite_left_after_is_source (cs : List Int) (i : Nat) (h : i < cs.length) :
+    Gen.C12Left.NewComposite_loopOrder = "lastToFirst" ∧
+    (genLeftAfter cs)[i]? = some (seqLeft (cs.drop (i + 1))) ∧
+    (seqLeft (cs.drop (i + 1)) < 0 ↔ ∃ c ∈ cs.drop (i + 1), c < 0) ∧
+    ((∀ c ∈ cs.drop (i + 1), 0 ≤ c) → seqLeft (cs.drop (i + 1)) = (cs.drop (i + 1)).foldr (· + ·) 0) := by
+  refine ⟨loopOrder_eq, ?_, seqLeft_neg_iff _, seqLeft_known _⟩
+  simp only [genLeftAfter, genLoop_eq]
+  exact leftAfterOf_get cs i h
+
+/-- "The RPS profile is exhausted" is REAL: the regenerated `(*compositeSchedule).Left`, standing at part `i` of a composite
+built by the regenerated `NewComposite`, answers 0 only if the current part has exactly nothing left AND every part behind
+it has a known length of exactly no token — never while a part of unknown length (or any token) is still to come,
+whatever the parts in front of it were (no token, one token, many), started or not. -/
+theorem C12_rps_end_is_real (cs : List Int) (i : Nat) (h : i < cs.length) (cur : Int) (started : Bool)
+    (h0 : Gen.C12Left.compositeSchedule_Left_decide ((cs.length : Int) - i) ((genLeftAfter cs)[i]?.getD 0) cur started = .ret 0) :
+    cur = 0 ∧ ∀ c ∈ cs.drop (i + 1), c = 0 := by
+  rw [leftDecide_eq, (C12_composite_left_after_is_source cs i h).2.1] at h0
+  obtain ⟨hc, hrest⟩ := leftDecide_zero h0
+  refine ⟨hc, ?_⟩
+  rcases hrest with hn | hla
+  · -- the last part: nothing behind it
+    have : cs.drop (i + 1) = [] := by
+      apply List.drop_eq_nil_of_le; omega
+    simp [this]
+  · exact seqLeft_eq_zero _ (by simpa using hla)
+
+/-- End to end with the REGENERATED users of `Left()`: the finish callback of the shared RPS schedule fires on a `Left()` call
+(`callbackOnLeft`, which cancels instance start) and the loop of `instance.Run` ends for "profile exhausted" (`IsFinished` with
+its context alive) on a composite profile only when that profile is really exhausted in the sense of `C12_rps_end_is_real`. -/
+theorem C12_start_cut_by_rps_end_is_real (cs : List Int) (i : Nat) (h : i < cs.length) (cur v : Int) (started : Bool)
+    (hd : Gen.C12Left.compositeSchedule_Left_decide ((cs.length : Int) - i) ((genLeftAfter cs)[i]?.getD 0) cur started = .ret v)
+    (hcb : Gen.Startup.callbackOnLeft v = true ∨ Gen.Startup.IsFinished false v = true) :
+    cur = 0 ∧ ∀ c ∈ cs.drop (i + 1), c = 0 := by
+  have hv : v = 0 := by
+    rcases hcb with hcb | hcb <;> simpa [Gen.Startup.callbackOnLeft, Gen.Startup.IsFinished] using hcb
+  subst hv
+  exact C12_rps_end_is_real cs i h cur started hd
+
+/-- …and when every part behind is known and the current one still has tokens the answer is the exact number of tokens
+still to come (so instance start is not cut and no instance stops while a token is left). -/
+theorem C12_rps_left_exact (cs : List Int) (i : Nat) (h : i + 1 < cs.length) (cur : Int) (started : Bool)
+    (hk : ∀ c ∈ cs.drop (i + 1), 0 ≤ c) (hcur : 0 < cur) :
+    Gen.C12Left.compositeSchedule_Left_decide ((cs.length : Int) - i) ((genLeftAfter cs)[i]?.getD 0) cur started =
+      .ret (cur + (cs.drop (i + 1)).foldr (· + ·) 0) := by
+  have hs := C12_composite_left_after_is_source cs i (by omega)
+  rw [leftDecide_eq, hs.2.1]
+  have hsum := hs.2.2.2 hk
+  have hge : 0 ≤ seqLeft (cs.drop (i + 1)) := by
+    rcases seqLeft_range (cs.drop (i + 1)) with h1 | h1
+    · have := (seqLeft_neg_iff (cs.drop (i + 1))).mp (by omega)
+      obtain ⟨c, hc, hc'⟩ := this
+      have := hk c hc; omega
+    · exact h1
+  simp only [Option.getD_some]
+  rw [leftDecide_known (by omega) hcur hge, hsum]
+
+/-- The same FOLLOWED THROUGH THE SHIFTS (`return s.Left()` after the writer section; regenerated decision and regenerated
+`startNext`): for a composite built over parts that answered `cs`, whose remaining parts answer `curs` when they are asked
+(the current one now, a part behind once a shift has started it), any recursion depth: `Left()` answers 0 only if every
+part it passed and the part it stopped at answered 0 AND every part behind that one has a known length of no token.  So
+"exhausted" is never said while a part that still has a token, or whose time is not over, lies ahead. -/
+theorem C12_rps_end_is_real_through_shifts (cs curs : List Int) (hlen : curs.length = cs.length) (started : Bool) (fuel : Nat)
+    (h0 : genFullLeft started fuel curs (genLeftAfter cs) = some 0) :
+    ∃ k, k < curs.length ∧ (∀ j, j ≤ k → curs[j]? = some 0) ∧ ∀ c ∈ cs.drop (k + 1), c = 0 := by
+  rw [genFullLeft_eq] at h0
+  simp only [genLeftAfter, genLoop_eq] at h0
+  exact fullLeft_zero started fuel curs cs hlen h0
+
+/-- pause, one probe shot, unlimited part (the seeded profile), all three asked after their time: drained, drained, over —
+two shifts, then 0 (hypotheses of the theorem above); while the unlimited part's time is not over: unknown; while the probe
+shot has not been taken: unknown -/
+example : genFullLeft true 3 [0, 0, 0] (genLeftAfter [0, 1, -1]) = some 0 ∧
+    genFullLeft true 3 [0, 0, -1] (genLeftAfter [0, 1, -1]) = some (-1) ∧
+    genFullLeft true 3 [0, 1, -1] (genLeftAfter [0, 1, -1]) = some (-1) := by decide
+
+/-- The PARTS answer truthfully (regenerated `Left()` of `doAtSchedule` — `once`, `const` — and of `unlimitedSchedule`): a part
+of n tokens of which i were asked for answers max 0 (n − i) — 0 exactly when every token was taken, n when fresh —, an
+unlimited part answers "unknown" (negative) until it was started AND its time is over, and only then 0.  These are the
+`cs` (fresh parts) and `cur` (the current part) of `C12_rps_end_is_real`. -/
+theorem C12_parts_answer_truthfully (n i : Int) (hi : 0 ≤ i) (started nowBeforeFinish : Bool) :
+    (Gen.C12Left.doAtSchedule_Left n i = 0 ↔ n ≤ i) ∧ 0 ≤ Gen.C12Left.doAtSchedule_Left n i ∧
+    (0 ≤ n → Gen.C12Left.doAtSchedule_Left n 0 = n) ∧
+    (Gen.C12Left.unlimitedSchedule_Left started nowBeforeFinish = 0 ↔ (started = true ∧ nowBeforeFinish = false)) ∧
+    (Gen.C12Left.unlimitedSchedule_Left started nowBeforeFinish ≠ 0 → Gen.C12Left.unlimitedSchedule_Left started nowBeforeFinish < 0) ∧
+    Gen.C12Left.unlimitedSchedule_Left false nowBeforeFinish < 0 := by
+  rw [doAtLeft_eq, doAtLeft_eq, unlimitedLeft_eq, unlimitedLeft_eq]
+  refine ⟨by omega, by omega, by intro h; omega, ?_, ?_, by simp⟩
+  · cases started <;> cases nowBeforeFinish <;> simp
+  · cases started <;> cases nowBeforeFinish <;> simp
+
+/-- the profile of the round-4 seeded change — a pause, ONE probe shot, then an unlimited part: `leftAfter` is
+[unknown, unknown, 0]; before the first token the answer is "unknown", after it the composite shifts on — never 0
+(hypotheses of `C12_rps_end_is_real` are met by the drained last part only) -/
+example : genLeftAfter [0, 1, -1] = [-1, -1, 0] ∧
+    Gen.C12Left.compositeSchedule_Left_decide 3 ((genLeftAfter [0, 1, -1])[0]?.getD 0) 0 false = .ret (-1) ∧
+    Gen.C12Left.compositeSchedule_Left_decide 3 ((genLeftAfter [0, 1, -1])[0]?.getD 0) 0 true = .shift ∧
+    Gen.C12Left.compositeSchedule_Left_decide 2 ((genLeftAfter [0, 1, -1])[1]?.getD 0) 1 true = .ret (-1) ∧
+    Gen.C12Left.compositeSchedule_Left_decide 1 ((genLeftAfter [0, 1, -1])[2]?.getD 0) 0 true = .ret 0 := by decide
+/-- all parts known: `const 5` then a pause then `once 3` — 8, then 3 (hypotheses of `C12_rps_left_exact`); two parts
+behind an exhausted one, both empty: 0 (hypotheses of `C12_rps_end_is_real` with `i = 0`) -/
+example : genLeftAfter [5, 0, 3] = [3, 3, 0] ∧
+    Gen.C12Left.compositeSchedule_Left_decide 3 ((genLeftAfter [5, 0, 3])[0]?.getD 0) 5 true = .ret 8 ∧
+    Gen.C12Left.compositeSchedule_Left_decide 3 ((genLeftAfter [2, 0, 0])[0]?.getD 0) 0 true = .ret 0 ∧
+    freshLeft [0, 1, -1] = some (-1) ∧ freshLeft [5, 0, 3] = some 8 := by decide
+
+end Left
+
+/-! ### round 4 — when the await loop of a pool ends (`toWait`) -/
+
+section Wait
+open Pandora.Model.C12Wait Pandora.Proofs.C12Wait Pandora.Bridge.C12Wait
+
+/-- The await loop of a pool (`awaitRun`, with the REGENERATED bookkeeping: initial `toWait`, loop condition, what every case
+and `checkAllInstancesAreFinished` do to it) has ended — only then is `awaitErr` closed and can `pool.Run` return without
+error, which lets `Engine.Run` return and cancel everything — exactly when the provider's result, the aggregator's result
+and the result of `startInstances` have been received AND "all instance runs awaited" went through; for all orders and
+repetitions of these four events.  The counter never goes below 0 (the loop cannot miss its end). -/
+theorem C12_pool_returns_ok_only_after_everything_awaited (evs : List WEv) :
+    let s := wrun genTab (WSt.init genTab) evs
+    (Gen.Startup.awaitLoopGoesOn s.toWait = false ↔
+      (s.prov = true ∧ s.aggr = true ∧ s.start = true ∧ s.runs = true)) ∧ 0 ≤ s.toWait ∧
+    (s.runs = true → s.start = true) := by
+  intro s
+  have hinv : WInv s := by
+    simp only [s, genTab_eq]
+    exact winv_run _ evs winv_init
+  rw [goesOn_eq]
+  exact ⟨(ended_iff s hinv).1, (ended_iff s hinv).2, hinv.2⟩
+
+/-- the usual order — start result, all runs awaited (which cancels the run), then provider and aggregator answer the
+cancelled run — ends the loop; without the aggregator's answer it goes on; "all finished" before the start result is not
+possible (hypotheses of the theorem above on concrete runs) -/
+example : Gen.Startup.awaitLoopGoesOn (wrun genTab (WSt.init genTab) [.start, .allFinished, .provider, .aggregator]).toWait = false ∧
+    Gen.Startup.awaitLoopGoesOn (wrun genTab (WSt.init genTab) [.start, .allFinished, .provider, .provider]).toWait = true ∧
+    (wrun genTab (WSt.init genTab) [.allFinished, .provider]).runs = false := by decide
+
+end Wait
 
 end Pandora.Props.C12
